@@ -518,6 +518,42 @@ def observe_exc(e):
         'pdelete': isinstance(e, PathDeleteError), 'glom': isinstance(e, GlomError)}}
 
 
+class Peek:
+    """a spec placed AFTER the spec under test in a chain: records the value handed on (what the spec
+    under test returned) and the scope variables visible from a later step of the same chain — the
+    scope frame an S-rooted destination binds in is not reachable once glom() has returned"""
+    _baseline = None
+
+    def __init__(self, own=()):
+        self.seen, self.got, self.vars = False, None, []
+        self.own = set(k for k in own if isinstance(k, str))
+
+    @classmethod
+    def baseline(cls):
+        """variable-like keys glom itself keeps in every scope (e.g. 'globals')"""
+        if cls._baseline is None:
+            import glom
+            p = cls()
+            cls._baseline = set()
+            glom.glom(None, p)
+            cls._baseline = set(k for k, _ in p.vars)
+        return cls._baseline
+
+    def glomit(self, target, scope):
+        self.seen, self.got = True, target
+        base = type(self)._baseline or set()
+        self.vars = [(k, scope[k]) for k in scope
+                     if type(k) in (str, int, bool, type(None)) and (k not in base or k in self.own)]
+        return target
+
+
+def enc_nest(x, depth, enc):
+    """a read result below `depth` wildcards: fresh lists are levels, everything else an entry"""
+    if depth > 0 and type(x) is list and id(x) not in enc.ids:
+        return {'l': [enc_nest(y, depth - 1, enc) for y in x]}
+    return {'v': pyobjs.enc_val(x, lambda v: enc.ids.get(id(v)) if enc.is_container(v) else None)}
+
+
 def load_corpus(prop):
     p = os.path.join(os.path.dirname(os.path.dirname(os.path.dirname(os.path.abspath(__file__)))),
                      'corpus', prop + '.jsonl')
@@ -556,10 +592,14 @@ def final_step(rng, heap, parent, present):
     return rng.choice([('key', {'s': 'n0'}), ('idx', {'i': 0}), ('attr', {'s': 'n0'})])
 
 
-def gen_dest(rng, heap, root, maxlen, want_present, absent_tail, star_p=0.15):
+def gen_dest(rng, heap, root, maxlen, want_present, absent_tail, star_p=0.15, first_absent_p=None):
     """A destination: [(kind, key)] steps (last one is the final step).
-    absent_tail > 0: the prefix stops existing `absent_tail` segments before the final one."""
+    absent_tail > 0: the prefix stops existing `absent_tail` segments before the final one.
+    first_absent_p: with that probability the existing prefix is EMPTY (the very first segment is the
+    absent one: for an S-rooted destination the scope variable itself does not exist yet)."""
     plen = rng.randint(0, maxlen - 1)
+    if first_absent_p is not None and absent_tail and rng.random() < first_absent_p:
+        plen = 0
     walk, parent = valid_walk(rng, heap, root, plen)
     steps = list(walk)
     if absent_tail:
